@@ -1,6 +1,6 @@
 """Property -> rules mapping, level texts, assumptions."""
 from . import entries
-from .rules import canon, facade, flag, floatrule, limbs, structural, table, total_rule, unimpl
+from .rules import canon, facade, flag, floatrule, limbs, macro, structural, table, total_rule, unimpl, witness
 
 COMMON_ASSUMPTIONS = [
     "rustc's type checker, trait resolution, MIR construction and constant evaluation are correct "
@@ -64,7 +64,12 @@ def rules_C04(ctx):
     out.append(structural.wf(ctx))
     out.append(structural.eqord(ctx))
     out.append(structural.maskkind(ctx))
+    out.append(witness.run(ctx, "C04"))
     return out
+
+
+def rules_C19(ctx):
+    return [witness.run(ctx, "C19"), macro.run(ctx)]
 
 
 def canon_for(ctx, files=None):
@@ -184,6 +189,15 @@ PROPS = {
     "C18": P("C18", "float<->Uint conversions reach no undischarged panic site (R-TOTAL)",
              "rounding, neighbour and monotonicity claims", rules_C18,
              ["rounding direction", "neighbour/monotonicity of Uint->float"]),
+    "C19": P("C19", "a grid of uint! witness programs builds or is rejected as the property demands (value 2^bits "
+             "rejected and 2^bits-1 accepted for nine widths and both suffixes, invalid digits incl. a digit equal to the "
+             "base, pass-through of ordinary and hex-ending-in-B literals, nesting, compile-time value assertions), each "
+             "failing witness with a compiling twin (R-WITNESS); on the macro's MIR: the digit range check rejects "
+             "digit == base, every Err reaches compile_error!, Ok(None) returns the literal, groups recurse, the "
+             "constructor emitted is the asserting from_limbs (R-MACRO)",
+             "that the constant's value equals run-time parsing for all literals (finite witness set, not a proof over "
+             "all programs)", rules_C19,
+             ["value equality with run-time parsing beyond the const-assert witnesses", "all programs (finite grid)"]),
     "C20": P("C20", "no facade function (Bits wrapper, num-traits, num-integer, subtle, zeroize) contains a panic "
              "source of its own beyond the reviewed rows where its signature cannot express the failure (R-TOTAL, "
              "own sites only)", "that the inherent method is right; constant-time-ness",
@@ -191,6 +205,4 @@ PROPS = {
 }
 
 # properties not yet claimed in this round, with the reason shown in MANIFEST.not_applicable
-PENDING = {
-    "C19": "witness runner (compile-fail / compile-pass programs for uint!) not built yet in this round; see DESIGN.md C19",
-}
+PENDING = {}
